@@ -45,6 +45,8 @@ Definition xop_of (x : xopc) : option xop :=
   | 11 => Some (XReadFrom off a b) | 12 => Some (XWriteTo off a)
   | 13 => if b =? 0 then None else Some (XSliceCopyFrom off a b c)
   | 14 => if b =? 0 then None else Some (XSliceCopyTo off a b c)
+  | 15 => Some (XReadFromFd off a b) | 16 => Some (XReadExactFromFd off a)   (* file of a+b bytes: never short *)
+  | 17 => Some (XWriteToFd off a) | 18 => Some (XWriteAllToFd off a)
   | _ => None end.
 
 Fixpoint xops_of (l : list xopc) {struct l} : option (list xop) :=
